@@ -411,18 +411,24 @@ Attach(c, o) ==
     /\ UNCHANGED <<lane, rlinked, outbox, down, wire, cq, ncmd, nset, stopped, closing,
                    attVars, readVars, writeVars, done>>
 
-CmdOps(c) ==
-    LET v == Val(c, ncmd[c] + 1) IN
-    IF Kind = "value"
-      THEN {[o |-> "set", v |-> v]} \cup (IF AllowEmpty THEN {[o |-> "set", v |-> ""]} ELSE {})
-      ELSE {[o |-> "upd", k |-> k, v |-> v] : k \in Keys} \cup {[o |-> "rem", k |-> k] : k \in Keys}
-           \cup {[o |-> "clr"]}
+\* the command consumer c writes: kind o on key k (o, k range over constants so that TLC reports
+\* CSend as one action); bodies are unique per (consumer, sequence number)
+CmdKinds == IF Kind = "value" THEN {"set"} \cup (IF AllowEmpty THEN {"empty"} ELSE {}) ELSE {"upd", "rem", "clr"}
+KeyChoice(o) == IF o \in {"upd", "rem"} THEN Keys ELSE {"*"}
+MkOp(o, k, v) ==
+    IF o = "set" THEN [o |-> "set", v |-> v]
+    ELSE IF o = "empty" THEN [o |-> "set", v |-> ""]
+    ELSE IF o = "upd" THEN [o |-> "upd", k |-> k, v |-> v]
+    ELSE IF o = "rem" THEN [o |-> "rem", k |-> k]
+    ELSE [o |-> "clr"]
 
-CSend(c, op) ==
+CSend(c, o, k) ==
     /\ MayAct /\ Open /\ Alive(c) /\ ncmd[c] < MaxCmd
-    /\ ncmd' = [ncmd EXCEPT ![c] = @ + 1]
-    /\ cq' = [cq EXCEPT ![c] = Append(@, op)]
-    /\ Act([k |-> "csend", c |-> c, op |-> op, sent |-> TRUE], <<[k |-> "csend", c |-> c, op |-> op]>>)
+    /\ o \in CmdKinds /\ k \in KeyChoice(o)
+    /\ LET op == MkOp(o, k, Val(c, ncmd[c] + 1)) IN
+       /\ ncmd' = [ncmd EXCEPT ![c] = @ + 1]
+       /\ cq' = [cq EXCEPT ![c] = Append(@, op)]
+       /\ Act([k |-> "csend", c |-> c, op |-> op, sent |-> TRUE], <<[k |-> "csend", c |-> c, op |-> op]>>)
     /\ NoRead
     /\ UNCHANGED <<lane, rlinked, outbox, down, wire, aq, cstate, copt, nset, stopped, closing,
                    attVars, readVars, writeVars, done>>
@@ -480,15 +486,13 @@ RPush ==
     /\ UNCHANGED <<lane, rlinked, wire, aq, cq, cstate, copt, ncmd, nset, stopped, closing,
                    attVars, readVars, writeVars, done>>
 
-SetOps ==
-    LET v == RVal(nset + 1) IN
-    IF Kind = "value" THEN {[o |-> "set", v |-> v]}
-    ELSE {[o |-> "upd", k |-> k, v |-> v] : k \in Keys} \cup {[o |-> "rem", k |-> k] : k \in Keys}
-
-RSet(op) ==
+\* a change of the lane made by somebody else
+RSet(o, k) ==
     /\ MayAct /\ Open /\ nset < MaxSet
-    /\ nset' = nset + 1 /\ lane' = ApplyOp(lane, op)
-    /\ LET out == IF rlinked THEN outbox \o <<Ev(op)>> ELSE outbox IN
+    /\ o \in (IF Kind = "value" THEN {"set"} ELSE {"upd", "rem"}) /\ k \in KeyChoice(o)
+    /\ LET op == MkOp(o, k, RVal(nset + 1))
+           out == IF rlinked THEN outbox \o <<Ev(op)>> ELSE outbox IN
+       /\ nset' = nset + 1 /\ lane' = ApplyOp(lane, op)
        /\ outbox' = <<>> /\ down' = down \o out
        /\ Act([k |-> "rset", op |-> op, resp |-> out], RSends(out))
     /\ NoRead
@@ -528,10 +532,10 @@ Next ==
     \/ W_LinkDone \/ W_IdleEmpty_Reg \/ W_Idle_Block \/ W_Idle_Reg \/ W_Wr_Done \/ W_Wr_Reg \/ W_Stop
     \/ \E c \in Consumers : W_Idle_Rec(c) \/ W_Idle_Gone(c) \/ W_Wr_Rec(c) \/ W_Wr_Gone(c)
     \/ \E c \in Consumers : \E o \in OptSet : Attach(c, o)
-    \/ \E c \in Consumers : \E op \in CmdOps(c) : CSend(c, op)
+    \/ \E c \in Consumers : \E o \in {"set", "empty", "upd", "rem", "clr"} : \E k \in Keys \cup {"*"} : CSend(c, o, k)
     \/ \E c \in Consumers : CDrop(c)
     \/ RRead(FALSE) \/ (AllowHold /\ RRead(TRUE)) \/ RPush
-    \/ \E op \in SetOps : RSet(op)
+    \/ \E o \in {"set", "upd", "rem"} : \E k \in Keys \cup {"*"} : RSet(o, k)
     \/ RUnlink \/ Stop \/ Finish
 
 Spec == Init /\ [][Next]_vars
